@@ -59,11 +59,34 @@ def parseFacts (s : String) : Option (List FontFacts) :=
       | _ => none
     | _ => none
 
-def parseSegs (s : String) : Option (List (String × List Nat)) :=
+/-- (api `t`/`g`, page, font, text); with api `mix` every segment is `<t|g><page>@<font>:<cps>` -/
+abbrev Seg := Char × Nat × String × List Nat
+
+def parseSegs (api : String) (s : String) : Option (List Seg) :=
   (s.splitOn "/").mapM fun seg =>
-    match seg.splitOn ":" with
-    | [f, cps] => (parseCps cps).map fun c => (f, c)
-    | _ => none
+    let hdr : Option (Char × Nat × String) :=
+      if api == "mix" then
+        match seg.splitOn "@" with
+        | [pre, rest] => match pre.toList with
+          | [a, d] => if (a == 't' || a == 'g') && d.isDigit then some (a, d.toNat - 48, rest) else none
+          | _ => none
+        | _ => none
+      else if api == "text" then some ('t', 0, seg) else if api == "gfx" then some ('g', 0, seg) else none
+    match hdr with
+    | some (a, pg, rest) =>
+      match rest.splitOn ":" with
+      | [f, cps] => (parseCps cps).map fun c => (a, pg, f, c)
+      | _ => none
+    | none => none
+
+def Seg.font (x : Seg) : String := x.2.2.1
+def Seg.text (x : Seg) : List Nat := x.2.2.2
+
+def onPage (segs : List Seg) (p : Nat) : List Seg := segs.filter (·.2.1 == p)
+/-- `generate_content_with_page_info` (painter model): operators come out in call order — each
+context is flushed into `page_ops` when the other one is asked for -/
+def contentOrder (segs : List Seg) (p : Nat) : List Seg := onPage segs p
+def nPages (segs : List Seg) : Nat := (segs.foldl (fun m x => max m x.2.1) 0) + 1
 
 def ltBytes : List Nat → List Nat → Bool
   | [], [] => false
@@ -92,35 +115,28 @@ def refNum : Option Obj → Option Nat
   | some (.ref n _) => some n
   | _ => none
 
-def oracle (segs : List (String × List Nat)) (facts : List FontFacts) (libI tuI showI : String) (fb : List Nat) : String :=
-  match openFile fb with
-  | none => "fail:unexpected independent-reader-cannot-open-file"
-  | some f =>
-  match f.pages with
-  | [] => "fail:unexpected no-page"
-  | page :: _ =>
+/-- one page: the shown strings in content order against the authored segments -/
+def pageVerdicts (f : File) (page : Obj) (expected : List Seg) : List String × List (List Nat × List Nat) :=
   match refNum (Obj.get page "Contents") with
-  | none => "fail:unexpected no-contents"
+  | none => (["unexpected no-contents"], [])
   | some cn =>
   match f.stream cn with
-  | none => "fail:unexpected contents-not-a-stream"
+  | none => (["unexpected contents-not-a-stream"], [])
   | some (_, cdata) =>
   match Spec.Syntax.readContent cdata with
-  | none => "fail:unexpected content-stream-does-not-parse"
+  | none => (["unexpected content-stream-does-not-parse"], [])
   | some toks =>
   let shows := showOps toks [] none
-  if shows.length != segs.length then s!"fail:unexpected {shows.length}-show-operations-for-{segs.length}-segments" else
-  -- the harness' cut of the shown strings must be what the walk found
-  let showOk := (if showI == "-" then some [] else (showI.splitOn ",").mapM fun h => bytesOfHexChars h.toList) == some (shows.map (·.2))
-  if !showOk then "fail:unexpected harness-show-cut-differs-from-content-stream" else
+  if shows.length != expected.length then ([s!"unexpected {shows.length}-show-operations-for-{expected.length}-segments"], shows) else
   let fontDictOf (rn : List Nat) : Option Obj :=
     match f.getR page "Resources" with
     | some r => match f.getR r "Font" with
       | some fd => f.getR fd (sOf rn)
       | none => none
     | none => none
-  -- per segment extraction
-  let perSeg : List String := (List.zip segs shows).map fun ((fname, s), (rn, bytes)) =>
+  ((List.zip expected shows).map fun (sg, (rn, bytes)) =>
+    let fname := sg.font
+    let s := sg.text
     if sOf rn != fname then s!"unexpected font-resource-{sOf rn}-for-{fname}" else
     match fontDictOf rn with
     | none => "unexpected no-font-dictionary"
@@ -140,18 +156,41 @@ def oracle (segs : List (String × List Nat)) (facts : List FontFacts) (libI tuI
           if text == s then
             (if cm.lowByteOverflow.isEmpty then "ok" else "bfrange-last-byte-overflow")
           else if s.any (· > 0xFFFF) && text == s.filter (· ≤ 0xFFFF) then "astral-not-recoverable"
-          else s!"unexpected independent-extraction-{showCps text}"
-  -- library extraction
-  let expectLib := [10].intercalate (segs.map (·.2))
-  let libOk := parseCps libI == some expectLib
-  let libCls :=
-    if libOk then "ok"
-    else if segs.any (fun (_, s) => s.any (· > 0xFFFF)) then "astral-not-recoverable"
-    else "unexpected library-extraction"
+          else s!"unexpected independent-extraction-{showCps text}-for-{showCps s}", shows)
+
+def oracle (segs : List Seg) (facts : List FontFacts) (libI tuI showI : String) (fb : List Nat) : String :=
+  match openFile fb with
+  | none => "fail:unexpected independent-reader-cannot-open-file"
+  | some f =>
+  let pages := f.pages
+  let np := nPages segs
+  if pages.length != np then s!"fail:unexpected {pages.length}-pages-for-{np}" else
+  let per := (List.range np).map fun p => pageVerdicts f (pages.getD p .null) (contentOrder segs p)
+  let perSeg := per.flatMap (·.1)
+  let shows := per.flatMap (·.2)
+  -- the harness' cut of the shown strings must be what the walk found
+  let showOk := (if showI == "-" then some [] else (showI.splitOn ",").mapM fun h => bytesOfHexChars h.toList) == some (shows.map (·.2))
+  if !showOk && !perSeg.any (·.startsWith "unexpected") then "fail:unexpected harness-show-cut-differs-from-content-stream" else
+  let anyAstral := segs.any fun x => x.text.any (· > 0xFFFF)
+  -- library extraction, page by page: one line per segment, top to bottom
+  let expectLib := (List.range np).map fun p => [10].intercalate ((onPage segs p).map Seg.text)
+  let libPages := (libI.splitOn "/").map parseCps
+  let libOk := libPages == expectLib.map some
+  let libCls := if libOk then "ok" else if anyAstral then "astral-not-recoverable" else "unexpected library-extraction"
+  -- the font dictionary of a font: on the first page that uses it
+  let fontDictOf (fname : String) : Option Obj :=
+    match segs.find? (·.font == fname) with
+    | none => none
+    | some sg =>
+      match f.getR (pages.getD sg.2.1 .null) "Resources" with
+      | some r => match f.getR r "Font" with
+        | some fd => f.getR fd fname
+        | none => none
+      | none => none
   -- ToUnicode streams cut by the harness = the ones the walk finds
-  let fontNames := dedupS (segs.map (·.1))
+  let fontNames := dedupS (segs.map Seg.font)
   let tuWalk := fontNames.filterMap fun fname =>
-    match fontDictOf (bstr fname) with
+    match fontDictOf fname with
     | some fd => match refNum (Obj.get fd "ToUnicode") with
       | some tn => (f.stream tn).map (·.2)
       | none => none
@@ -159,7 +198,7 @@ def oracle (segs : List (String × List Nat)) (facts : List FontFacts) (libI tuI
   if hexList (sortB tuWalk) != tuI then "fail:unexpected harness-tounicode-cut-differs-from-walk" else
   -- widths and glyphs per font
   let perFont : List String := facts.map fun ff =>
-    match fontDictOf (bstr ff.name) with
+    match fontDictOf ff.name with
     | none => "unexpected no-font-dictionary"
     | some fd =>
       match f.getR fd "DescendantFonts" with
@@ -220,15 +259,19 @@ def oracle (segs : List (String × List Nat)) (facts : List FontFacts) (libI tuI
 
 def handle (req impl : String) : String × String :=
   match req.splitOn " " with
-  | ["emb", _api, segS] =>
-    match parseSegs segS with
+  | ["emb", api, segS] =>
+    match parseSegs api segS with
     | none => ("bad-request", "na")
     | some segs =>
-      if segs.any (fun (_, s) => s.isEmpty || s.any (!isScalar ·)) then ("bad-request", "na") else
-      let libM := showCps ([10].intercalate (segs.map fun (_, s) => libSegment s))
-      let showM := ",".intercalate (segs.map fun (_, s) => sOf (showHex s))
-      let fonts := dedupS (segs.map (·.1))
-      let tuM := hexList (sortB (fonts.map fun fn => renderCMap (usedBmp ((segs.filter (·.1 == fn)).map (·.2)))))
+      if segs.any (fun x => x.text.isEmpty || x.text.any (!isScalar ·)) then ("bad-request", "na") else
+      let np := nPages segs
+      if (List.range np).any (fun p => (onPage segs p).isEmpty) then ("bad-request", "na") else
+      let libM := "/".intercalate ((List.range np).map fun p =>
+        showCps ([10].intercalate ((onPage segs p).map fun x => libSegment x.text)))
+      let showM := ",".intercalate ((List.range np).flatMap fun p => (contentOrder segs p).map fun x => sOf (showHex x.text))
+      let fonts := dedupS (segs.map Seg.font)
+      -- the document's used characters of a font: the union over both contexts and all pages
+      let tuM := hexList (sortB (fonts.map fun fn => renderCMap (usedBmp ((segs.filter (·.font == fn)).map Seg.text))))
       match impl.splitOn ";" with
       | [l, sh, tu, wv, fc, fl] =>
         match field "lib=" l, field "show=" sh, field "tu=" tu, field "w=" wv, field "facts=" fc, field "file=" fl with
@@ -240,7 +283,7 @@ def handle (req impl : String) : String × String :=
               renderW ((ff.chars.filter (·.2.1 != 0)).map fun (c, _, a) => (c, pdfWidth a ff.upem))))
             -- with a character above U+FFFF the extractor loses alignment on the unmapped surrogate codes
             -- (byte-wise resynchronisation, guessed encodings when nothing decodes): not modelled, echoed
-            let libM := if segs.any (fun (_, s) => s.any (· > 0xFFFF)) then lI else libM
+            let libM := if segs.any (fun x => x.text.any (· > 0xFFFF)) then lI else libM
             let model := s!"lib={libM};show={showM};tu={tuM};w={wM};facts={fcI};file={fI}"
             let orc := match bytesOfHex? fI with
               | some fb => oracle segs facts lI tuI shI fb
